@@ -306,11 +306,16 @@ fn op_templates() -> Vec<Op> {
     v.push(Op::MoveP("@Q".into(), "@P".into()));
     v.push(Op::Symlink("@P".into(), "@Q".into()));
     v.push(Op::CopyB("@P".into(), "@Q".into(), CopyOpt { mode: CopyMode::All(0o700), follow: false }));
+    // chmod_b / chown_b interpret their path when the builder is made: an exec() after the cwd moved on
+    // still acts on abs(path) as it was (Memfs only: the process cwd of Stdfs is global). copy_b resolves
+    // when it runs on both backends - undocumented either way, not asserted here
+    v.push(Op::Late(Box::new(Op::ChmodB("@P".into(), ChmodOpt { sel: ChmodSel::All(0o700), recursive: false, follow: false })), "/".into()));
+    v.push(Op::Late(Box::new(Op::ChownB("@P".into(), ChownOpt { uid: Some(5), gid: Some(7), recursive: false, follow: false })), "/".into()));
     v
 }
 
 pub fn run(c: &Ctx) {
-    c.set_rule("(a) abs(): every string over {'/','.','~','$',':','a','é'} up to length 5 (quick) / 6 (thorough) x cwd in {/, /a, /a/b, /a/b/c} and cwd entered through a symlink to a directory ({/a/b, /l} -> /zz/t/u) on Memfs with HOME=<sandbox>, V1 set, V2 empty, plus seeded random strings <=40 symbols with protocols in mixed case, braces and multi-byte names; the same strings on Stdfs vs a Memfs whose cwd equals the process cwd (a deep tmpfs directory), and 12 (quick) / 60 (thorough) environments (HOME unset/empty/'/h'/'/h/e//'/'rel', two variables) x cwd {/, /dev, sandbox} in child processes for both backends. Oracle: reference abs (trim protocol -> expand -> Go-Clean -> lexical join onto cwd): value, absolute+clean form, idempotence, independence from filesystem content, error iff empty / invalid expansion / '..' above root (kind class), backends equal. (b) spelling independence: 3 scenarios x every path x every call form (all single-path forms, copy/move both argument positions, symlink link position, copy_b) x 14 spellings (absolute with a variable inside, relative, './', doubled separators + trailing '/', detour through a missing name, '~/', '$V1/', '${V1}/./', 'file://', 'HTTPS://', '../<cwd>/', trailing '/.'): the call with the respelled path and the call with abs(path) run on two fresh replicas must give the same result and the same tree; on Memfs and on a tmpfs Stdfs sandbox. Non-trivial = (a) string with >=2 distinct special characters, (b) spelling != canonical; distinct by case.");
+    c.set_rule("(a) abs(): every string over {'/','.','~','$',':','a','é'} up to length 5 (quick) / 6 (thorough) x cwd in {/, /a, /a/b, /a/b/c} and cwd entered through a symlink to a directory ({/a/b, /l} -> /zz/t/u) on Memfs with HOME=<sandbox>, V1 set, V2 empty, plus seeded random strings <=40 symbols with protocols in mixed case, braces and multi-byte names; the same strings on Stdfs vs a Memfs whose cwd equals the process cwd (a deep tmpfs directory), and 12 (quick) / 60 (thorough) environments (HOME unset/empty/'/h'/'/h/e//'/'rel', two variables) x cwd {/, /dev, sandbox} in child processes for both backends. Oracle: reference abs (trim protocol -> expand -> Go-Clean -> lexical join onto cwd): value, absolute+clean form, idempotence, independence from filesystem content, error iff empty / invalid expansion / '..' above root (kind class), backends equal. (b) spelling independence: 3 scenarios x every path x every call form (all single-path forms, copy/move both argument positions, symlink link position, copy_b, chmod_b / chown_b executed after a later set_cwd) x 14 spellings (absolute with a variable inside, relative, './', doubled separators + trailing '/', detour through a missing name, '~/', '$V1/', '${V1}/./', 'file://', 'HTTPS://', '../<cwd>/', trailing '/.'): the call with the respelled path and the call with abs(path) run on two fresh replicas must give the same result and the same tree; on Memfs and on a tmpfs Stdfs sandbox. Non-trivial = (a) string with >=2 distinct special characters, (b) spelling != canonical; distinct by case.");
     c.assume("'does no IO' is checked behaviourally (same answer before/after the path exists); symlink's second argument is documented as relative to the link, it is not respelled");
     // one deep sandbox directory is cwd, HOME and $V1 for the whole run
     let base = crate::sandbox::dir("c05");
@@ -480,6 +485,9 @@ pub fn run(c: &Ctx) {
             for op in &ops {
                 for sp in 1..n_sp {
                     for stdfs in [false, true] {
+                        if stdfs && matches!(op, Op::Late(..)) {
+                            continue;
+                        }
                         if stdfs && !sampled(c.seed, 55, cases.len() as u64, 1, c.tier.pick(6, 1)) {
                             continue;
                         }
